@@ -82,6 +82,10 @@ func c12VarTime(r *rng.Rand, tfs int64, y int) (int64, int32) {
 func c12Gen(r *rng.Rand, i int, tier string) interface{} {
 	in := c12In{Var: r.Bool()}
 	var tfs int64
+	forceDense := tier != "thorough" && i == 7 // the quick tier's one generated history with > 8192 live slots
+	if forceDense {
+		in.Var = false
+	}
 	if in.Var {
 		in.TF = c12VarTFs[r.Intn(len(c12VarTFs))]
 		tfs = fxTfSeconds(in.TF)
@@ -90,6 +94,9 @@ func c12Gen(r *rng.Rand, i int, tier string) interface{} {
 		in.TF = fxTFs[r.Intn(len(fxTFs))]
 		if in.TF == "4H" { // a 4H bucket cannot be queried at all (C08 finding timeframe-requeried-as-other)
 			in.TF = "2H"
+		}
+		if forceDense {
+			in.TF = []string{"1Min", "5Min", "15Min"}[r.Intn(3)]
 		}
 		tfs = fxTfSeconds(in.TF)
 		mp := 64
@@ -153,10 +160,10 @@ func c12Gen(r *rng.Rand, i int, tier string) interface{} {
 		}
 		in.Reqs = append(in.Reqs, rows)
 	}
-	if !in.Var && tfs >= 60 && tfs <= 3600 && ((tier == "thorough" && r.Chance(5)) || (tier != "thorough" && i%97 == 41)) {
+	if !in.Var && tfs >= 60 && tfs <= 3600 && ((tier == "thorough" && r.Chance(3)) || forceDense) {
 		// more than 8192 (sometimes more than 16384) live slots in one year file: the chunk loops
 		cnt := 8192 + r.Intn(600)
-		if r.Chance(40) && 366*86400/tfs > 20000 {
+		if !forceDense && r.Chance(40) && 366*86400/tfs > 20000 {
 			cnt = 16384 + r.Intn(600)
 		}
 		if int64(cnt) > 360*86400/tfs {
@@ -312,6 +319,28 @@ func c12Exec(inst *fxinst.Inst, key string, variable bool, start, end time.Time,
 	return 0, "", out
 }
 
+// c12DenseRun reports whether rows are exactly the dense rows a..a+len-1 (row i: T = Start+i*Step, payload = le32(i) padded).
+func c12DenseRun(d *c12Dense, rows []c12ObsRec) (a int64, ok bool) {
+	if d == nil {
+		return 0, false
+	}
+	if len(rows) == 0 {
+		return 0, true
+	}
+	if (rows[0].T-d.Start)%d.Step != 0 {
+		return 0, false
+	}
+	a = (rows[0].T - d.Start) / d.Step
+	for k, rc := range rows {
+		i := a + int64(k)
+		if i < 0 || i >= int64(d.Count) || rc.T != d.Start+i*d.Step || rc.NS != 0 || len(rc.P) != 4 ||
+			binary.LittleEndian.Uint32(rc.P) != uint32(i) {
+			return 0, false
+		}
+	}
+	return a, true
+}
+
 func c12Tle(as, an, bs, bn int64) bool { return as < bs || (as == bs && an <= bn) }
 
 func c12RecsEq(a, b []c12ObsRec) bool {
@@ -420,7 +449,20 @@ func c12Run(raw json.RawMessage) (res Result, err error) {
 	}
 	coqRec := func(rc c12ObsRec) string { return cq.Tuple(cq.Z(rc.T), cq.Z(rc.NS), cq.Hex(rc.P)) }
 	var coqSlots, coqYears, coqQs []string
+	coqDense := "None"
+	dense := in.Dense
+	if dense != nil {
+		// the state must BE the dense series (checked here), then it travels as (start, count, step)
+		if a, ok := c12DenseRun(dense, state); ok && a == 0 && len(state) == dense.Count && len(in.Reqs) == 0 {
+			coqDense = cq.Some(cq.Tuple(cq.Z(dense.Start), cq.Z(int64(dense.Count)), cq.Z(dense.Step)))
+		} else {
+			dense = nil
+		}
+	}
 	for _, s := range slots {
+		if dense != nil {
+			break
+		}
 		var l []string
 		for _, rc := range s.recs {
 			l = append(l, coqRec(rc))
@@ -451,10 +493,22 @@ func c12Run(raw json.RawMessage) (res Result, err error) {
 		if q.N != 0 {
 			oq.BCode, _, oq.Base = c12Exec(inst, qkey, in.Var, start, end, 0, false)
 		}
-		obs.Qs = append(obs.Qs, oq)
+		if in.Dense != nil && len(oq.Rows) > 50 {
+			oq2 := oq
+			oq2.Rows = append(append([]c12ObsRec{}, oq.Rows[:3]...), oq.Rows[len(oq.Rows)-3:]...)
+			oq2.Err = fmt.Sprintf("%d rows (first/last 3 shown)", len(oq.Rows))
+			obs.Qs = append(obs.Qs, oq2)
+		} else {
+			obs.Qs = append(obs.Qs, oq)
+		}
 		var l []string
-		for _, rc := range oq.Rows {
-			l = append(l, coqRec(rc))
+		run := "None"
+		if a, ok := c12DenseRun(dense, oq.Rows); ok && dense != nil {
+			run = cq.Some(cq.Tuple(cq.Z(a), cq.Z(int64(len(oq.Rows)))))
+		} else {
+			for _, rc := range oq.Rows {
+				l = append(l, coqRec(rc))
+			}
 		}
 		reqS := int64(0)
 		if cd, e := utils.CandleDurationFromString(q.ReqTF); e == nil {
@@ -469,7 +523,7 @@ func c12Run(raw json.RawMessage) (res Result, err error) {
 			lim = cq.Some(cq.Tuple(cq.Bool(q.FromStart), cq.Z(int64(q.N))))
 		}
 		coqQs = append(coqQs, cq.Rec(cq.F("q_req", cq.Z(reqS)), cq.F("q_rs", cq.Tuple(cq.Z(q.S), cq.Z(q.SNs))), cq.F("q_re", re),
-			cq.F("q_lim", lim), cq.F("q_code", cq.Nat(oq.Code)), cq.F("q_rows", cq.List(l))))
+			cq.F("q_lim", lim), cq.F("q_code", cq.Nat(oq.Code)), cq.F("q_rows", cq.List(l)), cq.F("q_run", run)))
 		if q.N == 0 {
 			continue
 		}
@@ -534,7 +588,7 @@ func c12Run(raw json.RawMessage) (res Result, err error) {
 	}
 	res.Obs = obs
 	res.Coq = cq.Rec(cq.F("k_var", cq.Bool(in.Var)), cq.F("k_tfs", cq.Z(tfs)), cq.F("k_reclen", cq.Z(int64(obs.RecLen))),
-		cq.F("k_years", cq.List(coqYears)), cq.F("k_slots", cq.List(coqSlots)), cq.F("k_qs", cq.List(coqQs)))
+		cq.F("k_years", cq.List(coqYears)), cq.F("k_slots", cq.List(coqSlots)), cq.F("k_dense", coqDense), cq.F("k_qs", cq.List(coqQs)))
 	res.InDomain = anyGuard
 	kind := "fixed"
 	if in.Var {
